@@ -8,7 +8,15 @@ TEXT = json.load(open(os.path.join(ROOT, 'manifest_text.json')))
 checks = []
 na = []
 for p in ALL:
-    t = TEXT.get(p, {})
+    t = dict(TEXT.get(p, {}))
+    try:
+        mod = importlib.import_module(f'rules.{p}')
+        fams = sorted(set(__import__('re').findall(r"cx\.(?:ob|expect|floor)\('([A-Z]+)'", open(os.path.join(ROOT, 'rules', f'{p}.py')).read())))
+        t.setdefault('level', 'static decision, on every path of the current source, of the structural clauses of the property (rule families ' + ', '.join(fams) + '): ' + ' '.join((mod.EXPLANATION or '').split())[:900])
+        t.setdefault('note', 'NOT decided (numerical / runtime-quantified clauses): ' + (getattr(mod, 'NOT_DECIDED', '') or 'none') + '. Trusted: nightly rustc front end + MIR construction, Instance::try_resolve callee resolution, the callee semantics table in vpa/core.py, the dependencies (nalgebra, parry, faer, kiddo, levenberg-marquardt); ' + '; '.join(getattr(mod, 'ASSUMPTIONS', [])))
+        t.setdefault('technique', 'static analysis: rustc_private MIR/HIR facts driver + value-DAG / CFG rules (' + ', '.join(fams) + '); no engeom code is executed')
+    except Exception as ex:
+        pass
     if os.path.exists(os.path.join(ROOT, 'rules', f'{p}.py')) and not t.get('not_applicable'):
         checks.append({
             'property_id': p,
